@@ -115,7 +115,7 @@ MANIFEST = {
     'engine': 'E2',
     'technique': 'symbolic execution of clang IR over z3 reals; polynomial identities in n against the order-8 table executed to exact rationals',
     'text': 'Bounded solver verdict on the real code: the rhumb-area Fourier coefficients computed by Rhumb::AreaCoeffs (series mode) are obtained by symbolic execution of the IR for symbolic n and z3 decides equality with the '
-            'truncated order-8 series from the same repository; a wrong table entry, offset or power of n is refuted with a concrete n replayed on a g++ build.',
-    'note': 'Exact-real semantics, order 6 as compiled; oracle is a second copy inside the repository. Rhumb::GenInverse/GenDirect formulas, divided differences (DAuxLatitude), pole handling and accuracy are not decided by this obligation. '
+            'truncated order-8 series from the same repository; a wrong table entry, offset or power of n is refuted with a concrete n replayed on a g++ build. DAuxLatitude::Datan and Dasinh: every branch equals the divided difference it stands for and the atan addition formula is used only where it is valid.',
+    'note': 'Exact-real semantics, order 6 as compiled; oracle is a second copy inside the repository. Rhumb::GenInverse/GenDirect formulas, the other divided differences of DAuxLatitude, pole handling and accuracy are not decided. '
             'Trusted: clang-14, vfw/irparse+rsym (validated each run against the native build), z3.',
 }
